@@ -33,6 +33,10 @@ pub enum HOp {
     Restart(usize),
     /// black-hole the link, then a disconnects b (its close frame is lost), wait idle timeout + 1 s, heal
     CutDisconnect(usize, usize),
+    /// a starts an RPC to b whose handler stays busy until `Release` (not awaited)
+    SlowRpc(usize, usize),
+    /// let every busy handler finish
+    Release,
 }
 
 pub fn all_ops() -> Vec<HOp> {
@@ -69,6 +73,16 @@ pub fn all_ops() -> Vec<HOp> {
     v
 }
 
+/// the extended alphabet: plus slow RPCs (services limited to one request at a time)
+pub fn all_ops_busy() -> Vec<HOp> {
+    let mut v = all_ops();
+    for (i, j) in [(0, 1), (2, 1), (1, 0), (1, 2)] {
+        v.push(HOp::SlowRpc(i, j));
+    }
+    v.push(HOp::Release);
+    v
+}
+
 pub fn op_json(o: &HOp) -> Value {
     match *o {
         HOp::Dial(i, j) => json!(["dial", i, j]),
@@ -77,6 +91,8 @@ pub fn op_json(o: &HOp) -> Value {
         HOp::CutOneWay(i, j) => json!(["cut_oneway", i, j]),
         HOp::Restart(i) => json!(["restart", i, i]),
         HOp::CutDisconnect(i, j) => json!(["cut_disconnect", i, j]),
+        HOp::SlowRpc(i, j) => json!(["slow_rpc", i, j]),
+        HOp::Release => json!(["release", 0, 0]),
     }
 }
 
@@ -89,6 +105,8 @@ pub fn parse_op(v: &Value) -> HOp {
         "cut_short" => HOp::Cut(i, j, false),
         "cut_oneway" => HOp::CutOneWay(i, j),
         "cut_disconnect" => HOp::CutDisconnect(i, j),
+        "slow_rpc" => HOp::SlowRpc(i, j),
+        "release" => HOp::Release,
         _ => HOp::Restart(i),
     }
 }
@@ -133,8 +151,18 @@ async fn scenario(sim: Arc<Sim>, unit: Value, which: &'static str) -> Obs {
     let ks = keys(unit["perm"].as_u64().unwrap_or(0) as usize);
     let mut nets: Vec<Network> = vec![];
     let mut node_idx: Vec<usize> = vec![];
+    let busy = unit["busy"].as_bool().unwrap_or(false);
+    let start = |sim: &Sim, k: u8| {
+        if busy {
+            // the user service admits one request at a time (its poll_ready can be pending)
+            sim.start_limited(&NodeSpec::new(k).config(config()), 1).unwrap()
+        } else {
+            sim.start(&NodeSpec::new(k).config(config())).unwrap()
+        }
+    };
+    let mut slow_n = 0usize;
     for k in ks {
-        let n = sim.start(&NodeSpec::new(k).config(config())).unwrap();
+        let n = start(&sim, k);
         node_idx.push(sim.node_of(&n));
         nets.push(n);
     }
@@ -144,6 +172,14 @@ async fn scenario(sim: Arc<Sim>, unit: Value, which: &'static str) -> Obs {
         for (i, id) in ids.iter().enumerate() {
             l.insert(*id, format!("n{i}"));
         }
+    }
+    if busy {
+        for (i, j) in [(0usize, 1usize), (2, 1), (0, 2)] {
+            if let Err(e) = nets[i].connect(nets[j].local_addr()).await {
+                o.violations.push(("setup".into(), format!("pre-connecting n{i}->n{j} failed: {e}")));
+            }
+        }
+        tokio::time::sleep(ms(100)).await;
     }
     let mut subs: Vec<Sub> = vec![];
     let c04 = which == "C04";
@@ -247,13 +283,29 @@ async fn scenario(sim: Arc<Sim>, unit: Value, which: &'static str) -> Obs {
                 o.shape.push(if was { 'Q' } else { 'q' });
                 o.log.push(format!("step {step}: cut n{i}<->n{j}, n{i} disconnects n{j}, wait, heal"));
             }
+            HOp::SlowRpc(i, j) => {
+                slow_n += 1;
+                let (n, to, id) = (nets[i].clone(), ids[j], format!("slow{slow_n}"));
+                tokio::spawn(async move {
+                    let _ = n.rpc(to, Sim::request(&id).with_header("gate", "slow")).await;
+                });
+                tokio::time::sleep(ms(30)).await;
+                o.shape.push('s');
+                o.log.push(format!("step {step}: n{i} starts a slow rpc to n{j}"));
+            }
+            HOp::Release => {
+                sim.svc.release("slow");
+                sim.svc.rearm("slow");
+                o.shape.push('e');
+                o.log.push(format!("step {step}: busy handlers released"));
+            }
             HOp::Restart(i) => {
                 let old = nets[i].clone();
                 let r = tokio::time::timeout(ms(5_000), old.shutdown()).await;
                 if r.is_err() {
                     viol!("shutdown-hangs", "step {step}: shutdown of n{i} did not complete within 5 s");
                 }
-                let n = sim.start(&NodeSpec::new(ks[i]).config(config())).unwrap();
+                let n = start(&sim, ks[i]);
                 node_idx[i] = sim.node_of(&n);
                 nets[i] = n;
                 sim.labels.lock().unwrap().insert(ids[i], format!("n{i}"));
@@ -264,11 +316,15 @@ async fn scenario(sim: Arc<Sim>, unit: Value, which: &'static str) -> Obs {
         // settle without faults
         tokio::time::sleep(ms(if long_settle { IDLE_MS + 1_000 } else { 60 })).await;
         check_streams(&sim, &nets, &ids, &mut subs, step, c04, &mut o);
-        if c09 && long_settle {
+        if c09 && long_settle && !busy {
             check_mutual(&sim, &nets, &ids, step, &mut o).await;
         }
+        if c09 && long_settle && busy {
+            check_views_only(&nets, &ids, step, &mut o);
+        }
     }
-    // final: more than the idle timeout of fault-free connectivity
+    // final: more than the idle timeout of fault-free connectivity, nobody busy any more
+    sim.svc.release("slow");
     tokio::time::sleep(ms(IDLE_MS + 1_000)).await;
     check_streams(&sim, &nets, &ids, &mut subs, ops.len(), c04, &mut o);
     check_mutual(&sim, &nets, &ids, ops.len(), &mut o).await;
@@ -360,6 +416,17 @@ async fn check_mutual(sim: &Sim, nets: &[Network], ids: &[PeerId], step: usize, 
     }
 }
 
+/// listings only (no RPC probes: services may be legitimately busy)
+fn check_views_only(nets: &[Network], ids: &[PeerId], step: usize, o: &mut Obs) {
+    for i in 0..N {
+        for j in 0..N {
+            if i != j && nets[i].peers().contains(&ids[j]) && !nets[j].peers().contains(&ids[i]) {
+                o.violations.push(("views-not-mutual".into(), format!("after step {step} and more than the idle timeout of fault-free connectivity: n{i} lists n{j} but n{j} does not list n{i}")));
+            }
+        }
+    }
+}
+
 fn judge(o: &Obs) -> Judged {
     Judged { class: format!("hist:{}", o.shape), violations: o.violations.clone(), sample: Some(json!(o.log)) }
 }
@@ -393,6 +460,15 @@ pub fn units(tier: Tier, which: &str) -> Vec<Value> {
         // depth 3 in full (quick), depth 4 in full (thorough): expanded inside the unit
         u.push(json!({"kind":"history","ops":s.iter().map(op_json).collect::<Vec<_>>(),"settle":settle,"perm":0,"expand":tier.pick(1, 2)}));
     }
+    // services that admit one request at a time, with slow RPCs keeping them busy: every history
+    // over the extended alphabet that starts with a dial and contains a slow RPC
+    // (starting from a connected triangle 0-1, 2-1, 0-2: a non-initial state)
+    let busy_ops = all_ops_busy();
+    for a in &busy_ops {
+        for b in &busy_ops {
+            u.push(json!({"kind":"history","ops":[op_json(a), op_json(b)],"settle":settle,"perm":0,"expand":tier.pick(1, 2),"busy":true}));
+        }
+    }
     u
 }
 
@@ -400,10 +476,11 @@ pub fn run_unit(_tier: Tier, unit: &Value, out: &mut UnitResult, which: &'static
     let base: Vec<HOp> = unit["ops"].as_array().unwrap().iter().map(parse_op).collect();
     let expand = unit["expand"].as_u64().unwrap_or(0) as usize;
     let mut seqs: Vec<Vec<HOp>> = vec![base.clone()];
+    let busy = unit["busy"].as_bool().unwrap_or(false);
     for _ in 0..expand {
         let mut next = vec![];
         for s in &seqs {
-            for op in all_ops() {
+            for op in if busy { all_ops_busy() } else { all_ops() } {
                 let mut n = s.clone();
                 n.push(op);
                 next.push(n);
@@ -412,6 +489,9 @@ pub fn run_unit(_tier: Tier, unit: &Value, out: &mut UnitResult, which: &'static
         seqs = next;
     }
     for s in seqs {
+        if busy && !s.iter().any(|o| matches!(o, HOp::SlowRpc(..))) {
+            continue; // identical to the plain variant
+        }
         let mut u = unit.clone();
         u["ops"] = json!(s.iter().map(op_json).collect::<Vec<_>>());
         u["expand"] = json!(0);
